@@ -330,7 +330,7 @@ def binary_cases(rng: Rng, tier):
     # AUROC / AUPRC on the same space (sampled), thresholds starting at 0 favoured
     t0 = [t for t in ALL_THR if t[0] == 0.0]
     t01 = [t for t in t0 if t[-1] == 1.0]
-    reps = 12000 if full else 3000
+    reps = 40000 if full else 3000
     for _ in range(reps):
         n = rng.choice([1, 2, 3, 3, 4, 5])
         xs, ys = rng.grid(n), labels01(rng, n)
@@ -390,7 +390,7 @@ def multi_cases(rng: Rng, tier):
                 for opt in ("vectorized", "memory"):
                     yield "multilabel_binned_precision_recall_curve", {"input": ft(xs, shape=(n, 2)), "target": it(tg, shape=(n, 2)), "num_labels": 2,
                                                                        "threshold": thr, "optimization": opt}, ("exh-ml", n)
-    reps = 12000 if full else 2500
+    reps = 40000 if full else 2500
     for _ in range(reps):
         n = rng.choice([1, 2, 3, 4, 9, 33, 128]) if rng.random() < 0.95 else 0
         S = rng.choice([2, 3, 4])
